@@ -105,3 +105,33 @@ func VerifH_C10_HashChainRace(size, pattern, n int) {
 	hc.Fill(argb, 75, size, 1, false)
 	verifapi.Cover(true, "filled")
 }
+
+// vStubEntropy stands in for estimateEntropy (floating-point cost model): a fixed cost table that makes
+// a different predictor the best one for different tiles, so that a tile that is skipped by the
+// worker partition, or visited with the wrong coordinates, changes the selected modes.
+func vStubEntropy(argb []uint32, width, height, tx, ty, bits, mode int) float64 {
+	return float64((mode*7 + tx*3 + ty*5 + 2) % 13)
+}
+
+// VerifH_C12_ResidualSplit: ResidualImage's predictor selection (tile rows partitioned over GOMAXPROCS
+// worker goroutines) picks the same mode for every tile, and produces the same residuals, for
+// GOMAXPROCS = n as for GOMAXPROCS = 1; pixels symbolic, cost model replaced by vStubEntropy.
+func VerifH_C12_ResidualSplit(w, h, bits, n int) {
+	px := make([]uint32, w*h)
+	for i := range px {
+		px[i] = verifapi.U32("px")
+	}
+	q := 75
+	verifapi.Procs(1)
+	td1, r1 := ResidualImage(px, w, h, bits, q, nil)
+	verifapi.Procs(n)
+	td2, r2 := ResidualImage(px, w, h, bits, q, nil)
+	verifapi.Assert(len(td1) == len(td2) && len(r1) == len(r2), "same sizes")
+	for i := range td1 {
+		verifapi.Assert(td1[i] == td2[i], "same predictor chosen for every tile whatever the worker count")
+	}
+	for i := range r1 {
+		verifapi.Assert(r1[i] == r2[i], "same residuals whatever the worker count")
+	}
+	verifapi.Cover(len(td1) >= 16 && n > 1, "parallel selection with several workers")
+}
